@@ -46,7 +46,7 @@ def gcase(r):
 
 
 def replay_of(r, oi=None, msg=None):
-    if r["k"] in ("conc", "race"):
+    if r["k"] in ("conc", "race", "grace"):
         return dict(r, monitor=msg)
     d = {"kind": r["k"], "history_index": r["idx"]}
     if r["k"] == "hist":
@@ -107,12 +107,16 @@ def run(ctx):
         ctx.problem("monitor", "the race detector reports a data race in the dispatcher", (out + out2)[(out + out2).index("DATA RACE") - 50:][:1500], concrete=True,
                     replay={"race_report": (out + out2)[(out + out2).index("DATA RACE") - 50:][:3000]}, key="race")
     consts = [r for r in rows if r.get("k") == "consts"]
+    grace = [r for r in rows if r.get("k") == "grace"]
     rows = [r for r in rows if r.get("k") in ("hist", "post")]
     if rc != 0 or not rows:
         ctx.problem("correspondence", "go harness C17", out[-1500:])
         return
     hists = [r for r in rows if r["k"] == "hist"]
-    rows = rows + conc
+    rows = rows + conc + grace
+    ctx.cov["full_queue_grace_trials"] = [{k: v for k, v in r.items() if k != "mon"} for r in grace]
+    if not grace:
+        ctx.problem("correspondence", "go harness C17 (full-queue timing trials) produced no row", out[-800:])
     races = [r for r in conc if r["k"] == "race"]
     conc = [r for r in conc if r["k"] == "conc"]
     rows = rows + races
